@@ -223,3 +223,59 @@ SPECS['C02'] = dict(queries=c02, assumptions=SPECS['C01']['assumptions'] + [
     "pthread_rwlock model follows glibc's default: readers are not held back by waiting writers",
     "the deferred_guarded clause of C02 is decided by the C06 harness"],
     outside=["more than 4 threads or 2 operations per thread", "writer starvation / fairness"])
+
+
+# ------------------------------------------------------------------------------------------------ C08
+FORMS = {'try_lock': 1, 'try_lock_for': 2, 'try_lock_until': 3, 'try_lock_shared': 4, 'try_lock_shared_for': 5,
+         'try_lock_shared_until': 6, 'lock': 7, 'lock_shared': 8}
+
+
+def hq(wrap, mutex, form, hold, rounds=3, disabled=False, **kw):
+    name = f"{wrap}_{mutex}_{form}_hold{hold}" + ('_disabled' if disabled else '')
+    defines = [f'WRAP={WRAPS[wrap]}', f'MUTEX={MUTEXES[mutex]}', f'FORM={FORMS[form]}', f'HOLD={hold}'] + (['DISABLED'] if disabled else [])
+    return mk(name, 'c08_handles.cpp', [('X', 'vp_holder'), ('Y', 'vp_contender')], rounds, final='vp_final', cover=3, defines=defines,
+              opts={'yield_blocks': False}, unwind=2, must_cover=(4 if (hold == 0 or disabled) else 0), **kw)
+
+
+def c08_combos():
+    out = []
+    for w in ('guarded', 'guarded_opt', 'shared_guarded', 'shared_guarded_opt', 'ordered_guarded'):
+        for m in MUTEXES:
+            timed = m in ('timed_mutex', 'shared_timed_mutex')
+            forms = []
+            if w != 'ordered_guarded':
+                forms += ['try_lock', 'lock'] + (['try_lock_for', 'try_lock_until'] if timed else [])
+            if w in ('shared_guarded', 'shared_guarded_opt', 'ordered_guarded'):
+                forms += ['try_lock_shared', 'lock_shared'] + (['try_lock_shared_for', 'try_lock_shared_until'] if timed else [])
+            for f in forms:
+                holds = [0, 1] + ([2] if w in ('shared_guarded', 'shared_guarded_opt', 'ordered_guarded') else [])
+                if w == 'ordered_guarded': holds = [0, 2]
+                for h in holds:
+                    out.append((w, m, f, h, False))
+            if w in ('guarded_opt', 'shared_guarded_opt'):
+                for f in forms:
+                    out.append((w, m, f, 1, True))
+    return out
+
+
+def c08(tier):
+    combos = c08_combos()
+    if tier == 'quick':
+        # every (wrapper, form) pair once, rotating through the mutex types that support the form; every disabled form once
+        seen = set(); pick = []
+        for k, c in enumerate(combos):
+            key = (c[0], c[2], c[4], c[3] != 0)
+            if key in seen: continue
+            if c[1] in ('mutex', 'shared_mutex') and c[2] in ('try_lock', 'lock', 'try_lock_shared', 'lock_shared') and (hash((c[0], c[2])) % 2 == 0) and not c[4]:
+                continue   # leave this (wrapper, form) to a timed mutex type further down the list
+            seen.add(key); pick.append(c)
+        return [hq(*c[:4], disabled=c[4]) for c in pick]
+    return [hq(*c[:4], rounds=4, disabled=c[4], timeout=1200) for c in combos]
+
+
+SPECS['C08'] = dict(queries=c08, assumptions=SPECS['C01']['assumptions'] + [
+    "'lock obtained' is read from the pthread model (owner word / reader mask) right after the acquisition returns, atomically with its last visible step",
+    "the handle life-cycle (destroy | unlock() | move-construct | move-assign over a handle of a second wrapper) is a symbolic choice inside every query",
+    "'never blocking beyond the given time' is not decided (time is abstract); that untimed try-forms never block is decided via the per-thread blocked-context counter",
+    "the truth value of a moved-from handle is left unconstrained (the defaulted move keeps the data pointer)"],
+    outside=["cow_guarded / lr_guarded try forms (C04, C03)", "deferred_guarded shared try-forms (C06 harness)", "recursive mutexes"])
